@@ -507,6 +507,16 @@ func (env *SpecEnv) call(x *SCall) Val {
 		case "tag":
 			v := env.eval(x.Args[0])
 			return spec1(v.L[0])
+		case "deref":
+			v := env.eval(x.Args[0])
+			if v.T == nil || !isPointer(v.T) {
+				sfail("deref of non-pointer")
+			}
+			el := under(v.T).(*types.Pointer).Elem()
+			if isStruct(el) {
+				return v // pointers to structs are dereferenced implicitly by field selection
+			}
+			return ex.load(env.st, ex.ptrLoc(v), el)
 		case "nonnil":
 			v := env.eval(x.Args[0])
 			if v.T != nil && isIface(v.T) {
